@@ -20,6 +20,14 @@ from . import tlc
 from .c01 import cores_of
 
 
+def dev(a, b):
+    """largest absolute deviation; infinite when the shapes differ (a wrong shape is a wrong answer, not a harness error)"""
+    a, b = np.asarray(a, dtype=float), np.asarray(b, dtype=float)
+    if a.shape != b.shape:
+        return float('inf')
+    return float(np.max(np.abs(a - b))) if a.size else 0.
+
+
 def cheb_eval_dense(C, T):
     """mirror: evaluate the coefficient tensor C at reference points T (m x d)"""
     out = np.empty(len(T))
@@ -78,7 +86,7 @@ def run(ctx):
             if d >= 2:
                 # --- evaluation (TT), scalar / per-dimension box arguments, single point vs batch
                 y1 = teneva.func_get(X, A, a, b)
-                ctx.check(np.abs(y1 - exact).max() <= tol, 'func_get:value', 'func_get differs from the exact polynomial value by %.2e (n=%s, box %s)' % (np.abs(y1 - exact).max(), n, box), case=case)
+                ctx.check(dev(y1, exact) <= tol, 'func_get:value', 'func_get differs from the exact polynomial value by %.2e (n=%s, box %s)' % (dev(y1, exact), n, box), case=case)
                 if len(box) == 1:
                     y1s = teneva.func_get(X, A, float(a[0]), float(b[0]))
                     ctx.check(np.array_equal(y1s, y1), 'func_get:scalar-box', 'scalar and per-dimension box arguments disagree', case=case)
@@ -115,7 +123,7 @@ def run(ctx):
                             ctx.check(bool(ok2), 'func_get:fill', 'func_get(skip_out=True, %s): points outside the default box do not receive the fill value z=%r' % (form, z), case=case)
             # --- dense routines (any d >= 1)
             y2 = teneva.func_get_full(X, C.copy(), a, b)
-            ctx.check(np.abs(y2 - exact).max() <= tol, 'func_get_full:value', 'func_get_full differs from the exact value by %.2e (n=%s box %s)' % (np.abs(y2 - exact).max(), n, box), case=case)
+            ctx.check(dev(y2, exact) <= tol, 'func_get_full:value', 'func_get_full differs from the exact value by %.2e (n=%s box %s)' % (dev(y2, exact), n, box), case=case)
             raised = False
             try:
                 I2 = teneva.func_sum_full(C.copy(), a, b)
@@ -133,27 +141,27 @@ def run(ctx):
                 grid = [np.cos(np.pi * np.arange(k) / (k - 1)) for k in m_]
                 Xg = np.array(np.meshgrid(*grid, indexing='ij')).reshape(d, -1).T
                 ref = cheb_eval_dense(C, Xg).reshape(m_)
-                ctx.check(F.is_wellformed(Yv, m_) and np.abs(F.dense(Yv) - ref).max() <= tol, 'func_gets:values',
+                ctx.check(F.is_wellformed(Yv, m_) and dev(F.dense(Yv), ref) <= tol, 'func_gets:values',
                           'values on the new grid %s differ from the polynomial' % m_, case=case)
                 Ab = teneva.func_int(Yv)
                 pad = np.zeros(m_)
                 pad[tuple(slice(0, k) for k in n)] = C
-                ctx.check(F.is_wellformed(Ab, m_) and np.abs(F.dense(Ab) - pad).max() <= tol, 'func_int:pad',
+                ctx.check(F.is_wellformed(Ab, m_) and dev(F.dense(Ab), pad) <= tol, 'func_int:pad',
                           'func_int(func_gets(A, m=%s)) is not the zero-padded coefficient tensor' % m_, case=case)
             Yd = teneva.func_gets_full(C.copy(), -1., 1., np.array(m_))
             grid = [np.cos(np.pi * np.arange(k) / (k - 1)) for k in m_]
             Xg = np.array(np.meshgrid(*grid, indexing='ij')).reshape(d, -1).T
             ref = cheb_eval_dense(C, Xg).reshape(m_)
-            ctx.check(Yd.shape == tuple(m_) and np.abs(Yd - ref).max() <= tol, 'func_gets_full:values', 'dense re-sampling on grid %s differs' % m_, case=case)
+            ctx.check(Yd.shape == tuple(m_) and dev(Yd, ref) <= tol, 'func_gets_full:values', 'dense re-sampling on grid %s differs' % m_, case=case)
             # the node values do not depend on the box the nodes are mapped into (including the end nodes a and b themselves)
             for (a1, b1) in ((0.1, 0.7), (-0.1, 0.3), (-1.3, 2.1), (0., 2.), (-3., 5.)):
                 Yb = teneva.func_gets_full(C.copy(), a1, b1, np.array(m_))
-                ctx.check(Yb.shape == tuple(m_) and np.abs(Yb - ref).max() <= tol, 'func_gets_full:values',
-                          'dense re-sampling on grid %s over the box [%s, %s] differs from the polynomial values by %.3g' % (m_, a1, b1, np.abs(Yb - ref).max() if Yb.shape == tuple(m_) else -1), case=case)
+                ctx.check(Yb.shape == tuple(m_) and dev(Yb, ref) <= tol, 'func_gets_full:values',
+                          'dense re-sampling on grid %s over the box [%s, %s] differs from the polynomial values by %.3g' % (m_, a1, b1, dev(Yb, ref) if Yb.shape == tuple(m_) else -1), case=case)
             Cd = teneva.func_int_full(Yd)
             pad = np.zeros(m_)
             pad[tuple(slice(0, k) for k in n)] = C
-            ctx.check(np.abs(Cd - pad).max() <= tol, 'func_int_full:pad', 'func_int_full(func_gets_full(C, m=%s)) is not the zero-padded coefficient tensor' % m_, case=case)
+            ctx.check(dev(Cd, pad) <= tol, 'func_int_full:pad', 'func_int_full(func_gets_full(C, m=%s)) is not the zero-padded coefficient tensor' % m_, case=case)
             ctx.case(key=('resample', row['cores'], m_), nontrivial=nontriv)
         # --- differentiation matrices (1-D)
         if d == 1 and row['diff']:
@@ -173,13 +181,13 @@ def run(ctx):
                         if order == 1:
                             pad_d = np.zeros(max(len(dcoef), 1))
                             pad_d[:len(cur)] = cur
-                            if np.abs(pad_d - dcoef).max() > 1e-12 * sc:
+                            if dev(pad_d, dcoef) > 1e-12 * sc:
                                 mirror_bad += 1
                         got = Ds[order - 1] @ vals
-                        if np.abs(got - refv).max() > 1e-9 * sc * nn ** 4 * (2. / (b1 - a1)) ** order:
+                        if dev(got, refv) > 1e-9 * sc * nn ** 4 * (2. / (b1 - a1)) ** order:
                             ok = False
                             ctx.violation('func_diff_matrix:order%d' % order, 'derivative #%d of a degree-%d polynomial wrong on [%g, %g], n=%d: err %.2e'
-                                          % (order, n[0] - 1, a1, b1, nn, np.abs(got - refv).max()), case=case)
+                                          % (order, n[0] - 1, a1, b1, nn, dev(got, refv)), case=case)
                     D1 = teneva.func_diff_matrix(a1, b1, nn)
                     ctx.check(np.allclose(D1, Ds[0]), 'func_diff_matrix:m1', 'm=1 result differs from the first matrix of the m=3 list', case=case)
                     ctx.case(key=('diff', row['cores'], a1, nn), nontrivial=True)
@@ -195,14 +203,14 @@ def run(ctx):
         L = teneva.func_int(teneva.add(teneva.mul(Y1, al), teneva.mul(Y2, be)))
         R = teneva.add(teneva.mul(teneva.func_int(Y1), al), teneva.mul(teneva.func_int(Y2), be))
         ctx.case(key=('linear', t, ctx.seed), nontrivial=True)
-        ctx.check(np.abs(F.dense(L) - F.dense(R)).max() <= 1e-12 * (1 + np.abs(F.dense(R)).max()), 'func_int:linear', 'coefficient transform is not linear')
+        ctx.check(dev(F.dense(L), F.dense(R)) <= 1e-12 * (1 + np.abs(F.dense(R)).max()), 'func_int:linear', 'coefficient transform is not linear')
         back = teneva.func_gets(teneva.func_int(Y1))
-        ctx.check(np.abs(F.dense(back) - F.dense(Y1)).max() <= 1e-12 * (1 + np.abs(F.dense(Y1)).max()), 'func_gets:inverse', 're-sampling on the same grid does not invert the transform')
+        ctx.check(dev(F.dense(back), F.dense(Y1)) <= 1e-12 * (1 + np.abs(F.dense(Y1)).max()), 'func_gets:inverse', 're-sampling on the same grid does not invert the transform')
         backs = teneva.func_gets(teneva.func_int(Y1, kind='sin'), kind='sin')
-        ctx.check(np.abs(F.dense(backs) - F.dense(Y1)).max() <= 1e-11 * (1 + np.abs(F.dense(Y1)).max()), 'func_int:sin', 'sine kind: transform / re-sampling pair is not the identity')
+        ctx.check(dev(F.dense(backs), F.dense(Y1)) <= 1e-11 * (1 + np.abs(F.dense(Y1)).max()), 'func_int:sin', 'sine kind: transform / re-sampling pair is not the identity')
         # dense and TT agree
         Cd = teneva.func_int_full(F.dense(Y1))
-        ctx.check(np.abs(Cd - F.dense(teneva.func_int(Y1))).max() <= 1e-12 * (1 + np.abs(Cd).max()), 'func_int_full:agree', 'dense and TT coefficient transforms disagree')
+        ctx.check(dev(Cd, F.dense(teneva.func_int(Y1))) <= 1e-12 * (1 + np.abs(Cd).max()), 'func_int_full:agree', 'dense and TT coefficient transforms disagree')
         # custom basis fitted by least squares reproduces functions in its span
         nb = min(n) if min(n) >= 2 else 2
         npts = nb + int(rng.integers(0, 4))
@@ -213,7 +221,7 @@ def run(ctx):
             Yvals = [np.einsum('pj,rjq->rpq', B, G) for G in coefs]
             try:
                 Afit = teneva.func_int_general(Yvals, Xn, basis)
-                okf = F.is_wellformed(Afit, [nb] * d) and np.abs(F.dense(Afit) - F.dense(coefs)).max() <= 1e-7 * (1 + np.abs(F.dense(coefs)).max())
+                okf = F.is_wellformed(Afit, [nb] * d) and dev(F.dense(Afit), F.dense(coefs)) <= 1e-7 * (1 + np.abs(F.dense(coefs)).max())
             except Exception as ex:
                 okf = False
             ctx.check(okf, 'func_int_general:span', 'least-squares fit in a custom %s basis (%d functions, %d points) does not reproduce a function in its span' % (name, nb, npts))
@@ -222,7 +230,7 @@ def run(ctx):
             Yv2 = [np.einsum('pj,rjq->rpq', basis(X2[k]).T, G) for k, G in enumerate(coefs)]
             try:
                 A2 = teneva.func_int_general(Yv2, X2, basis)
-                ok2 = F.is_wellformed(A2, [nb] * d) and np.abs(F.dense(A2) - F.dense(coefs)).max() <= 1e-7 * (1 + np.abs(F.dense(coefs)).max())
+                ok2 = F.is_wellformed(A2, [nb] * d) and dev(F.dense(A2), F.dense(coefs)) <= 1e-7 * (1 + np.abs(F.dense(coefs)).max())
             except Exception:
                 ok2 = False
             ctx.check(ok2, 'func_int_general:span', 'fit with per-core sample points (2-D X) in a custom %s basis does not reproduce a function in its span' % name)
